@@ -9,8 +9,10 @@ def run(F, G, tier, seed):
     CG = CallGraph(F)
     exprlaws.run_arity(chk, F, G, CG)
     exprlaws.run_fields(chk, F)
+    exprlaws.run_emptyok(chk, F)
+    exprlaws.run_eqtext(chk, F)
     return chk.finish(
         "Decides the structural clauses of C19: children reported == children constructed for every kind that can "
         "reach every construction site; clone/clone_deeper copy every member; equal compares everything but "
-        "position and type; subst writes only into a fresh clone.",
+        "position and type, and the type where print reads it (R-EQTEXT); the empty expression is handled (R-EMPTYOK); subst writes only into a fresh clone.",
         not_decided="the laws on runtime trees (reflexivity, symmetry, transitivity follow only informally)")
